@@ -983,7 +983,9 @@ func checkC11TSClient(k *Kernel, cov *Coverage) *Violation {
 				return &Violation{Class: "success-from-error-status", Signature: sig("success-from-error-status", fmt.Sprintf("status=%d", wireStatus)),
 					Detail: fmt.Sprintf("op %d %s: peer answered %d yet the TS client resolved with %s", c.Op.ID, c.Op.RPC, wireStatus, truncBytes(c.TSValue))}
 			}
-			if _, _, body, err := parseResponse(last.s2c.sent, verb); err == nil && !json.Valid(body) {
+			// (an empty 2xx body gives no verdict: reading it as the empty message, as the Go client
+			// does, is a response too)
+			if _, _, body, err := parseResponse(last.s2c.sent, verb); err == nil && len(bytes.TrimSpace(body)) > 0 && !json.Valid(body) {
 				return &Violation{Class: "success-from-undecodable-response", Signature: sig("success-from-undecodable-response", ""),
 					Detail: fmt.Sprintf("op %d %s: response body %q is not JSON yet the TS client resolved with %s", c.Op.ID, c.Op.RPC, truncBytes(body), truncBytes(c.TSValue))}
 			}
